@@ -266,6 +266,12 @@ def run(ctx):
         f_lex = ex.submit(L.lex_texts, judge, texts)
         (srv, legend, legends_agree), model, lexed = f_srv.result(), f_mod.result(), f_lex.result()
 
+    # no alarms from timing: a silent request is repeated in fresh processes before it counts as a panic
+    retried = [n for n, r in enumerate(srv) if r == "mute"]
+    for n in retried:
+        r = L.retry_mute(exe, texts[n], lambda s, uri: s.semtok(uri))
+        srv[n] = r.get("data") if isinstance(r, dict) else r
+
     viol = []          # (size, replay dict)
     known_hits = {}
     mism = []
@@ -274,6 +280,7 @@ def run(ctx):
             "model_wf_false": 0}
     types_seen = {}
     spec_hist, spec_disagree = {}, []
+    wf_false = []
     nontrivial = set()
     if not legends_agree or not legend.get("tokenTypes"):
         viol.append((0, dict(kind="oracle", what="initialize announces no (or a varying) semantic token legend", legend=legend)))
@@ -296,13 +303,14 @@ def run(ctx):
         spec_flag = mnums[2] if mnums[0] == 0 and len(mnums) > 2 else None
         if len(mnums) > 1 and mnums[0] in (0, 1) and mnums[1] != 1:
             hist["model_wf_false"] += 1
+            wf_false.append(n)
         if obs != mod:
             mism.append(n)
         # --- oracle, well-formedness part (all documents)
         if data == "mute":
-            if L.confirm_mute(exe, text, lambda s, uri: s.semtok(uri)):
-                viol.append((len(text), dict(kind="oracle", property=PID, text=text, observed="no response (handler panic), confirmed in 3 fresh processes",
-                                             what="semanticTokens/full is never answered; also a crash in the sense of C02")))
+            # still silent after the retries in three fresh processes
+            viol.append((len(text), dict(kind="oracle", property=PID, text=text, observed="no response (handler panic), confirmed in 3 fresh processes",
+                                         what="semanticTokens/full is never answered; also a crash in the sense of C02")))
             continue
         if not isinstance(data, list):
             viol.append((len(text), dict(kind="oracle", property=PID, text=text, observed=repr(data), what="semanticTokens/full answered with null or an error for an open document")))
@@ -371,6 +379,9 @@ def run(ctx):
             ctx.violation(dict(kind="correspondence", property=PID, text=texts[n], server=srv[n], model=model[n],
                                mismatches=len(mism), kernel_failures=len(kfail),
                                what="Model/SemTok.v and the server's semanticTokens/full answer differ (model output: tag, wf flag, data)"), no_input=True)
+        elif wf_false:
+            ctx.violation(dict(kind="specification", property=PID, text=texts[wf_false[0]], cases=len(wf_false),
+                               what="SemTok.doc_wf_b, the hypothesis of the C15 theorems, does not hold for the analysed document"), no_input=True)
         elif spec_disagree:
             n, cf, pf = spec_disagree[0]
             ctx.violation(dict(kind="specification", property=PID, text=texts[n], coq_flag=cf, oracle_flag=pf, cases=len(spec_disagree),
@@ -394,7 +405,7 @@ def run(ctx):
         "coq_spec_vs_oracle_disagreements": len(spec_disagree),
         "traces_validated_against_impl": len(docs) - len(mism),
         "correspondence_mismatches": len(mism) + len(kfail), "kernel_judge_cases": len(pick),
-        "oracle_failures": len(viol),
+        "oracle_failures": len(viol), "silent_requests_retried": len(retried),
         "samples": [dict(text=texts[n][:300], data=srv[n] if not isinstance(srv[n], list) else srv[n][:40]) for n in rng.sample(range(len(docs)), 3)],
         "explanation": EXPLANATION,
     })
@@ -407,14 +418,20 @@ def run(ctx):
 
 
 EXPLANATION = (
-    "PROVED for all documents (Props/C15.v, over the model Model/SemTok.v of semantic_tokens.rs): see the theorem list in the file - "
-    "under the explicit well-formedness predicate doc_wf (tokens ordered/sliceable/not starting at a line terminator, declarations in "
-    "source order with in-bounds ranges) the handler never panics (no u32 underflow, no slice panic), the decoded stream is the image of a "
-    "strictly increasing subsequence of the document's tokens (so: strictly increasing positions, each token coincides with one lexical "
-    "token, byte ranges disjoint), keywords/numbers/comments carry their lexical class. VALIDATED only (correspondence + oracle): that "
-    "the model is the code; that doc_wf holds for every analysed document (flag computed by the judge on every case; the token half "
-    "follows from C06, the tree half from ParserProofs.T5_per_declaration for `parse`, preservation by build/analyze is not proved); the "
-    "classification of identifiers by binding kind and the declaration bit on well-typed programs (C15_full_statement is stated, not proved).")
+    "PROVED for all documents (Props/C15.v over the model Model/SemTok.v of semantic_tokens.rs), under the explicit executable "
+    "well-formedness predicate doc_wf_b (tokens ordered / sliceable on character boundaries / not starting at a line terminator; "
+    "declarations in source order with in-bounds ranges; declaration names end with an identifier token): C15_no_panic (no slice panic, "
+    "no u32 underflow), C15_coincide (the decoded stream is the image of an order-preserving subsequence of the document's tokens: each "
+    "decoded token = position of the first byte and UTF-16 length of one lexical token), C15_increasing (strictly increasing positions), "
+    "C15_disjoint (pairwise disjoint byte ranges), C15_lexical_class + C15_lexical_complete (keywords/numbers/comments inside declarations "
+    "are reported with exactly their class, nothing but identifiers otherwise), C15_tokens_wf (token half of doc_wf_b for every output of "
+    "lex), C15_decls_ordered (ordering half for every output of parse), C15_new_doc_wf / C15_new_doc_stream (build and analyze keep "
+    "offsets and ranges: for AnalyzedSource::new outputs doc_wf_b reduces to the name condition decls_names_b). "
+    "C15_full_statement (classification of every identifier by the class of its binding, declaration bit on declared names, every "
+    "keyword/number/comment reported) is stated on the model and REFUTED (C15_full_statement_refuted) by the witness of the known finding "
+    "C15-type-use-shadowed-by-local. VALIDATED only (correspondence + oracle): that the model is the code; decls_names_b for parser "
+    "outputs (the judge computes doc_wf_b on every case: always 1); the classification of identifiers outside the two known classes "
+    "(python oracle from splscope and the Coq statement decided per document by the judge, in agreement).")
 
 
 def replay(ctx, path):
